@@ -4,5 +4,7 @@
    ProofsCommit what one run of handleChangedPrimaryInputEvents establishes under static key ownership
    ProofsInv    invariant over all interleavings of mutations and deliveries; state_is_function
    ProofsEvents every subscriber's stream replays to the contents
+   ProofsRev    the reverse-index invariant and changedInputKeys soundness for EVERY transformation
+   ProofsWf     per-key well-formedness of every subscriber's stream under ownership
    ProofsK5     purity of the table-driven transformations, satisfiable ownership, K5 witnesses *)
-From V Require Export C16.Model C16.ProofsBase C16.ProofsDep C16.ProofsCommit C16.ProofsInv C16.ProofsEvents C16.ProofsK5.
+From V Require Export C16.Model C16.ProofsBase C16.ProofsDep C16.ProofsCommit C16.ProofsInv C16.ProofsEvents C16.ProofsRev C16.ProofsWf C16.ProofsK5.
